@@ -294,3 +294,73 @@ func TestC05_Sketch(t *testing.T) {
 		cl.done(folded)
 	})
 }
+
+// TestC01_LargeScale: few cases with tens of thousands of values from one smooth distribution (plus thin tails),
+// added one at a time, so that the stores reach sizes short cases never reach; accuracy of q=0, q=1, the extreme
+// ranks and a grid is judged against the exact sorted multiset.
+func TestC01_LargeScale(t *testing.T) {
+	rapid.Check(t, func(t *rapid.T) {
+		cl := newCase("C01")
+		c := drawCfg(t, cfgOpt{alphaLo: 1e-3, alphaHi: 0.05})
+		n := rapid.IntRange(4000, 60000).Draw(t, "n")
+		pages := rapid.SampledFrom([]int{2, 20, 100, 300, 300, 600}).Draw(t, "pages")
+		width := 32 * pages
+		d := newDomain(c.m)
+		centre := c.m.Index(1)
+		tails := rapid.IntRange(0, 1500).Draw(t, "tails")
+		shape := rapid.SampledFrom([]string{"uniform", "round-robin", "bell", "ascending"}).Draw(t, "shape")
+		negSide := rapid.IntRange(0, 3).Draw(t, "negside") == 0
+		seed := rapid.Uint64().Draw(t, "lcgseed")
+		lcg := func() uint64 {
+			seed = seed*6364136223846793005 + 1442695040888963407
+			return seed >> 11
+		}
+		cl.logf("C01 large-scale %s n=%d width=%d tails=%d shape=%s neg=%v", c, n, width, tails, shape, negSide)
+		cl.label("large-scale")
+		cl.label("pos:" + c.pos.Name)
+		s := c.new()
+		a := &accData{cl: cl}
+		for i := 0; i < n; i++ {
+			var idx int
+			if tails > 0 && int(lcg()%uint64(n)) < tails {
+				idx = centre - 8000 + int(lcg()%16000)
+			} else {
+				switch shape {
+				case "uniform":
+					idx = centre + int(lcg()%uint64(width))
+				case "round-robin":
+					idx = centre + (i*37)%width
+				case "bell":
+					idx = centre + int((lcg()%uint64(width)+lcg()%uint64(width)+lcg()%uint64(width))/3)
+				default:
+					idx = centre + i*width/n
+				}
+			}
+			if idx <= d.minIdx {
+				idx = d.minIdx + 1
+			}
+			if idx >= d.maxIdx {
+				idx = d.maxIdx - 1
+			}
+			v := d.clamp(c.m.Value(idx))
+			if negSide && lcg()%3 == 0 {
+				v = -v
+			}
+			if err := s.Add(v); err != nil {
+				t.Fatalf("C01 large: Add(%v): %v", v, err)
+			}
+			a.vals = append(a.vals, v)
+		}
+		a.finish(c.m)
+		qs := []float64{0, 1, 0.5}
+		for k := 0; k < 40; k++ {
+			qs = append(qs, float64(k)/float64(n-1), float64(n-1-k)/float64(n-1))
+		}
+		for k := 0; k < 40; k++ {
+			qs = append(qs, float64(lcg()%1000000)/1000000)
+		}
+		nb, crossing := checkQuantileAccuracy(t, "C01", cl, c, s, a, qs, nil)
+		stats.Count("C01", "large_scale_additions", int64(n))
+		cl.done(nb >= 2 && crossing)
+	})
+}
